@@ -133,17 +133,22 @@ func (p *Parser) Parse(source string) (Node, error) {
 // next to it, so that its body can call them wherever the macro ends up being used
 func linkMacros(nodes []Node) {
 	var macros map[string]*MacroNode
+	var imports []Node
 	for _, node := range nodes {
-		if macro, ok := node.(*MacroNode); ok {
+		switch n := node.(type) {
+		case *MacroNode:
 			if macros == nil {
 				macros = make(map[string]*MacroNode)
 			}
-			macros[macro.name] = macro // as at render time, the last definition of a name wins
+			macros[n.name] = n // as at render time, the last definition of a name wins
+		case *ImportNode, *FromImportNode:
+			imports = append(imports, n)
 		}
 	}
 	for _, node := range nodes {
 		if macro, ok := node.(*MacroNode); ok {
 			macro.siblings = macros
+			macro.imports = imports
 		}
 	}
 }
